@@ -272,6 +272,9 @@ def build_jobs(athlib, ref, quick, rng):
         jobs.append(('row', g, ev, None, False, coeffs, 10 ** 4, kind, kmax))
         if g == 'M' and ev == '800':
             jobs.append(('row', g, ev, None, True, (0.232, 200.0, 1.85), 10 ** 4, kind, 23000))
+        elif ev == '800' or rng.random() < (0.1 if quick else 1.0):
+            # the ESAA option changes the boys' 800 m only: everywhere else the reference coefficients stay
+            jobs.append(('row', g, ev, None, True, coeffs, 10 ** 4, kind, kmax))
         # masters factors
         evu = ev.upper()
         row_ev = evu
@@ -306,7 +309,9 @@ def build_jobs(athlib, ref, quick, rng):
         # quick tier: a seeded sample of the (row, factor, chunk) queries; thorough runs them all
         rng.shuffle(cj)
         central = [j for j in cj if j[-1]]
-        keep = central[:14] + [j for j in cj if j[4]][:2] + [j for j in cj if not j[-1]][:16]
+        esaa = [j for j in cj if j[4]]
+        keep = central[:14] + [j for j in esaa if j[2] == '800' and j[-1]] + esaa[:2] + [j for j in cj if not j[-1]][:14]
+        keep = list(dict((id(j), j) for j in keep).values())
         cj = keep
     jobs = [j[:-1] for j in cj]
     evs = sorted({o['event_code'] for o in rows} | {'80H', 'SH', 'LH'})
